@@ -48,6 +48,10 @@ pub fn generate(id: &str, run_seed: u64, thorough: bool) -> Plan {
     let mut plan = generate_family(id, run_seed, thorough);
     retry_abandoned(&mut plan, run_seed);
     repeat_ids(&mut plan, run_seed);
+    // A tenth of the runs: the client announces a call deadline beyond the server-side wait limit.
+    if mix2(run_seed ^ 0xDEAD11E, 1) % 100 < 10 {
+        plan.knobs.call_deadline_s = [360u64, 1_200, 3_600, 86_400, 35_999_999_640][(mix2(run_seed ^ 0xDEAD11E, 2) % 5) as usize];
+    }
     plan
 }
 
